@@ -23,9 +23,12 @@ Inductive c07case :=
 | KSeq (envok : bool) (exp : list N) (steps : list c07step)
     (* exp: versions whose reference task was sent with a creation time older than maxCachedTime;
        envok: what the harness' own protocol checker said about the sequence (must equal env_ok) *)
-| KPanic (exp : list N) (steps : list c07step) (last : event) (kind : N).
+| KPanic (exp : list N) (steps : list c07step) (last : event) (kind : N)
     (* the real loop panicked on [last]: 0 negative ref, 1 duplicate reference request,
        2 invalid release request *)
+| KProto (evs : list event).
+    (* an event sequence the REAL version layer (session.commit/setVersion, version.incref/releaseNB,
+       recorded instead of consumed by the loop) sent: it must satisfy the protocol env_ok *)
 
 Definition digest (m : list (N * N)) : N * N * N :=
   fold_left (fun '(n, s, w) '(f, c) => (n + 1, s + c, w + f * c)) m (0, 0, 0).
@@ -61,6 +64,7 @@ Definition run_case (c : c07case) : bool :=
       | Some s => match step rlp s (e, exp) with Panic q => panic_code q =? kind | _ => false end
       | None => false
       end
+  | KProto evs => env_ok (map (fun e => (e, [])) evs)
   end.
 
 Fixpoint mism_from {A} (f : A -> bool) (i : N) (l : list A) : list N :=
